@@ -61,6 +61,48 @@ def seam_diff(a, b):
     return None
 
 
+def _cached_constraints(rp, calls):
+    if not calls:
+        return None
+    cons = list(calls[0].get('constraints') or ())
+    if not cons or len(cons) != len(rp.state['cons']):
+        return None
+    names = [v.name for v in rp.prob.variables]
+    return cons, names, PROBES[-1][:len(names)].copy()
+
+
+def touch_last_point(rp, calls):
+    """Evaluate the cached constraint functions at one point (what the post-solve check / a warm start does last)."""
+    cc = _cached_constraints(rp, calls)
+    if cc:
+        for d in cc[0]:
+            try:
+                d['fun'](cc[2].copy())
+            except Exception:
+                pass
+
+
+def stale_at_last_point(rp, calls):
+    """After Parameter.set, with nothing evaluated in between: the same point again. -> None or a description."""
+    cc = _cached_constraints(rp, calls)
+    if not cc:
+        return None
+    cons, names, x = cc
+    vals = {n: float(x[i]) for i, n in enumerate(names)}
+    for d, cid in zip(cons, rp.state['cons']):
+        c = rp.w.cons[cid]
+        want = float(np.asarray(c.expr.evaluate(vals)))
+        if c.sense == '<=':
+            want = -want
+        try:
+            have = float(np.asarray(d['fun'](x.copy())))
+        except Exception:
+            continue
+        if abs(have - want) > 1e-9 * (1 + abs(want)):
+            return 'constraint fun handed to the solver reflects an old parameter value'
+    return None
+
+
 def replay_chunk(idx, hists):
     import optyx
     part = {'violations': {}, 'counts': {}, 'evaluations': 0, 'traces_validated_against_impl': 0, 'nontrivial': set(),
@@ -72,18 +114,31 @@ def replay_chunk(idx, hists):
             for kind in ('scalar', 'vector'):
                 rp = concrete.Replay(kind)
                 text = '; '.join(histgraph.op_str(o) for o in h)
+                last_ca = None
                 for i, op in enumerate(h):
                     if op['op'] != 'Solve':
+                        if op['op'] in ('SetObjective', 'SubjectTo'):
+                            last_ca = None
+                        if op['op'] == 'SetParam' and last_ca:
+                            touch_last_point(rp, last_ca)
                         try:
                             rp.apply(op)
                         except Exception as e:
                             bump(part, 'edit_raises', type(e).__name__)
                             break
+                        if op['op'] == 'SetParam' and last_ca:
+                            # the callables of the last solve stay cached; the point they were evaluated at last is evaluated
+                            # again right after the update, with nothing in between (a warm start does exactly this)
+                            d = stale_at_last_point(rp, last_ca)
+                            if d:
+                                pviolation(part, history_site(h, i), d, {'history': text, 'concretisation': kind, 'step': i})
+                                break
                         continue
                     part['evaluations'] += 1
                     with warnings.catch_warnings():
                         warnings.simplefilter('ignore')
                         a, ca = capture_solve(rec, rp.prob, op['m'])
+                        last_ca = ca
                         w2 = rp.w.rebuilt_with_constants()
                         f = optyx.Problem()
                         if rp.state['obj'] is not None:
